@@ -946,7 +946,7 @@ pub fn execute(scn: &Scenario, schedule: Schedule, certs: &CertFiles) -> Record 
     clock::new_epoch();
     clock::reseed(scn.seed);
     clock::bind();
-    let net = ChoiceNet::new(&schedule, vec![], Duration::from_millis(scn.base_delay_ms), scn.mds as usize, rec.clone());
+    let net = ChoiceNet::new(&schedule, Duration::from_millis(scn.base_delay_ms), scn.mds as usize, rec.clone());
     let shared = net.shared.clone();
     let mut executor = Executor::new(net, scn.seed);
     let handle = executor.handle().clone();
